@@ -4,10 +4,11 @@ from props.c09 import enc as enc_value, enc_int, BITS, SIGNED
 
 
 def enc(v):
-    """value record -> script encoding; an object of a user type carries its type name and its fields: O|<type name>|a,b"""
+    """value record -> script encoding; an object of a user type carries its type name, its fields and - when it is not an
+    object of its own - which shared object holds them: O|<type name>|a,b[|id]"""
     if v.get("t") == "obj":
         c = v["c"]
-        return "O|%s|%s" % (v["tn"], ",".join(str(x) for x in (c if isinstance(c, (list, tuple)) else [c, c])))
+        return "O|%s|%s" % (v["tn"], ",".join(str(x) for x in (c if isinstance(c, (list, tuple)) else [c, c]))) + ("|%d" % v["id"] if v.get("id") else "")
     return enc_value(v)
 
 
@@ -33,7 +34,7 @@ CONST = """CONSTANTS
 """
 MC_INV = ("INVARIANTS TypeOK DomainUnambiguous NeverOverConsumed CountsAgree ConsumedFits CandidatesSound VerdictExact "
           "UnfulfilledIsCountMismatch OutOfOrderIsOrderMismatch EarlyFailureJustified FailsOnce\n"
-          "PROPERTIES InstallIsLocal BoundFunctionsStay\nCHECK_DEADLOCK FALSE\n")
+          "PROPERTIES InstallIsLocal BoundFunctionsStay VerdictIsFirstDeviation\nCHECK_DEADLOCK FALSE\n")
 TRACE_CONST = """CONSTANTS
   Scopes = {"", "s", "t"}
   Fns = {}
@@ -60,7 +61,8 @@ def consts(**kw):
     d = dict(scopes="ScopesG", fns='"f", "g"', pnames='"p"', vals="Vals2", onames="", odata="NoData", objs="", rets="Rets1",
              maxexp=2, ns="0, 1, 2", maxcalls=3, getters="GetValue", late="FALSE", toggles="FALSE", flags="TRUE", maxinst=0, dkeys="NoKeys", dvals="NoData")
     d.update(kw)
-    return CONST % d
+    # cmpx: the comparison functions the enumerated domain installs (default: all of Mock!CmpModes)
+    return CONST % d + ("  CmpExplored <- %s\n" % d["cmpx"] if d.get("cmpx") else "")
 
 
 def mc_cfg(**kw):
@@ -210,6 +212,16 @@ def user_type_names():
     return res
 
 
+CMP_MODES = ["whole", "first", "never", "always", "less"]       # Mock!CmpModes
+ODD_CMP_MODES = ["never", "always", "less"]
+
+
+def obj_may_coincide(mode, a, b):
+    """two expected objects of one type (first fields a, b), both bound to comparator `mode`: can one actual object match both?
+    (Mock!ObjMayCoincide for equal modes)"""
+    return {"whole": a == b, "first": a == b, "never": False, "always": True, "less": True}[mode]
+
+
 class Repos:
     """python twin of Mock!Install / Touched / CmpOf, used only to derive actual values that the expectations will accept"""
 
@@ -236,7 +248,10 @@ def install_plan(rng, scopes, cmp_types, cpy_types):
     which function a scope has comes from the global scope (installed before or after the scope exists) or from the scope
     itself, and scopes may differ.  -> (lines, Repos)"""
     lines, R = [], Repos()
-    jobs = [("installcmp", tn, ["whole", "first"]) for tn in cmp_types] + [("installcpy", tn, ["plain", "inv"]) for tn in cpy_types]
+    # a type's comparison functions: usually equality of the whole object / of its first field (scopes may differ); now and then one
+    # that is no equivalence - never equal, always equal, expected below actual - the same one in every scope
+    cmp_modes = {tn: (["whole", "first"] if rng.random() < 0.75 else [rng.choice(ODD_CMP_MODES)]) for tn in cmp_types}
+    jobs = [("installcmp", tn, cmp_modes[tn]) for tn in cmp_types] + [("installcpy", tn, ["plain", "inv"]) for tn in cpy_types]
     rng.shuffle(jobs)
     children = [s for s in scopes if s]
 
@@ -290,6 +305,13 @@ class Atoms:
             return ("dbl", rng.randrange(-20, 20) * 1000)
         return ("obj", rng.choice(self.types), rng.randrange(1, 4))       # the atom is the FIRST field; the second one is spelling
 
+    @staticmethod
+    def apart(a, b, cmp_of):
+        """no actual value matches both atoms (objects: under the comparator cmp_of(type name) both expectations bind)"""
+        if a[0] == "obj" and b[0] == "obj" and a[1] == b[1]:
+            return not obj_may_coincide(cmp_of(a[1]), a[2], b[2])
+        return a != b
+
     def other(self, a):
         """an atom of the same kind that differs"""
         for _ in range(50):
@@ -321,14 +343,24 @@ class Atoms:
                 return {"t": "double", "v": {"k": "fin", "neg": a[1] < 0, "q": a[1]}, "tol": {"k": "fin", "neg": tq < 0, "q": tq}}
             q = a[1]
             return {"t": "double", "v": {"k": "fin", "neg": q < 0, "q": q}, "tol": {"k": "fin", "neg": False, "q": 0}}
-        return {"t": "obj", "tn": a[1], "c": [a[2], rng.randrange(1, 4)]}
+        # which object: one of its own (0) or the 1st / 2nd shared object with that content
+        return {"t": "obj", "tn": a[1], "c": [a[2], rng.randrange(1, 4)], "id": rng.choice([0, 0, 1, 2])}
 
 
 def obj_within(rng, expv, mode):
     """an actual object the expectation's comparator accepts: the same first field; the second one matters in mode "whole"
-    (now and then an actual value that only a "first" comparator accepts is passed to a "whole" one: a wrong value)"""
-    b = expv["c"][1] if (mode == "whole" and rng.random() < 0.9) else rng.randrange(1, 4)
-    return {"t": "obj", "tn": expv["tn"], "c": [expv["c"][0], b]}
+    (now and then an actual value that only a "first" comparator accepts is passed to a "whole" one: a wrong value); a greater
+    first field for "less" (now and then the same one); anything for "always" and - in vain - for "never".  The actual object is
+    often the very object the expectation holds (same content, same identity), else the same content in another object."""
+    a = expv["c"][0]
+    b = expv["c"][1] if ((mode == "whole" and rng.random() < 0.9) or (mode in ODD_CMP_MODES and rng.random() < 0.6)) else rng.randrange(1, 4)
+    if mode == "less" and rng.random() < 0.7:
+        a += rng.randrange(1, 3)
+    elif mode in ("always", "never") and rng.random() < 0.4:
+        a = rng.randrange(1, 4)
+    same_content = [a, b] == list(expv["c"])
+    oid = expv.get("id", 0) if (same_content and rng.random() < 0.6) else rng.choice([0, 0, 1, 2, 3])
+    return {"t": "obj", "tn": expv["tn"], "c": [a, b], "id": oid}
 
 
 DEFAULT_TOL_Q = 5      # the interfaces' default tolerance 0.005 in units of the harness grid (2^-10)
@@ -372,7 +404,7 @@ def data_lines(rng, scopes):
 
 def random_scenario(rng, typed=True, c_compatible=False, max_exp=12, max_calls=30, odd_tolerances=False):
     """One scenario: flags, expectations (unambiguous by construction), actual calls derived from them with a few
-    deviations, check, end.  c_compatible: only what the C interface can express (no objects; the sub-calls of one
+    deviations (a missing / surplus / unknown call, a wrong sub-call, a last call of a scope left in progress), check, end.  c_compatible: only what the C interface can express (no objects; the sub-calls of one
     call are contiguous).  odd_tolerances: double expectations also carry tolerance 0, the default tolerance, negative tolerances,
     and the actual values lie on either side of the tolerance's edge by one grid unit."""
     A = Atoms(rng, typed, odd_tolerances)
@@ -418,7 +450,7 @@ def random_scenario(rng, typed=True, c_compatible=False, max_exp=12, max_calls=3
         for _try in range(20):
             atoms = {k: A.atom(sh["kinds"][k]) for k in sh["names"]}
             obj = rng.randrange(1, 4) if sh["objs"] else 0
-            if all(any(atoms[k] != o[2]["atoms"][k] for k in sh["names"]) or (obj and o[2]["obj"] and obj != o[2]["obj"]) for o in same):
+            if all(any(A.apart(atoms[k], o[2]["atoms"][k], lambda tn: R.cmp(s, tn)) for k in sh["names"]) or (obj and o[2]["obj"] and obj != o[2]["obj"]) for o in same):
                 break
         else:
             continue
@@ -440,7 +472,7 @@ def random_scenario(rng, typed=True, c_compatible=False, max_exp=12, max_calls=3
         lines.append(expect_line(s, e, order))
     if typed and rng.random() < 0.15:
         # a later installation: the expectations keep the functions they have bound
-        lines.append(["installcmp", rng.choice(scopes), rng.choice(A.types), rng.choice(["whole", "first"])])
+        lines.append(["installcmp", rng.choice(scopes), rng.choice(A.types), rng.choice(CMP_MODES)])
     if typed and rng.random() < 0.3:
         lines.extend(data_lines(rng, scopes))
     # the calls that would fulfil everything
@@ -463,6 +495,13 @@ def random_scenario(rng, typed=True, c_compatible=False, max_exp=12, max_calls=3
     elif dev < 0.30:
         calls.insert(rng.randrange(len(calls) + 1), [rng.choice(scopes), None, None])   # a call to a function nobody expects
     mutate_at = rng.randrange(len(calls)) if calls and 0.30 <= dev < 0.62 else -1
+    # a call left in progress: the LAST call of one scope lacks a parameter / its object and nothing reads its return value, so it is
+    # still open - beside the other scopes' last calls, finished or not - when a verdict step (expectedCallsLeft, checkExpectations,
+    # the end of the test) has to complete it
+    stuck_at = -1
+    if calls and 0.62 <= dev < 0.74:
+        s_ = rng.choice(sorted({c[0] for c in calls}))
+        stuck_at = max(i for i, c in enumerate(calls) if c[0] == s_)
     pending = []
     for ci, (s, e, meta) in enumerate(calls):
         if e is None:
@@ -498,6 +537,12 @@ def random_scenario(rng, typed=True, c_compatible=False, max_exp=12, max_calls=3
                 subs[j] = ["outparam", s, subs[j][2], A.types[1] if typed else "raw"]   # another output type
             else:
                 subs.insert(j, ["outparam", s, "w", "raw"])                    # unknown output parameter
+        if ci == stuck_at:
+            need = [j for j, x in enumerate(subs) if (x[0] == "param" and x[2] in e["ins"]) or x[0] == "outparam" or (x[0] == "object" and e["obj"])]
+            if need:
+                subs.pop(rng.choice(need))
+            lines.extend(subs)
+            continue
         lines.extend(subs)
         r = rng.random()
         if r < 0.45:
